@@ -215,6 +215,9 @@ static int btcp_init(struct xcm_socket *s, struct xcm_socket *parent)
 	bts->conn.bell_reg_id =
 	    xpoll_bell_reg_add(s->xpoll, false);
 
+	if (bts->conn.bell_reg_id < 0)
+	    return -1;
+
 	dns_opts_init(&bts->conn.dns_opts);
 
 	/* Connections spawned from a server socket never use DNS */
